@@ -83,7 +83,7 @@ def parseFtsOp (toks : List String) : Option Fts.Op :=
   | "newx" :: rest => do
     -- a row created without any text field: no text
     let e ← nat? rest "e"
-    if e ≥ 2 then none else some (.new (← nat? rest "s") (← nat? rest "n") e [])
+    if e ≥ 2 then none else some (.newx (← nat? rest "s") (← nat? rest "n") e)
   | "upd" :: rest => do some (.upd (← nat? rest "s") (← nat? rest "n") (← parseWords ((kv? rest "w").getD "")))
   | "clr" :: rest => do some (.clr (← nat? rest "s") (← nat? rest "n"))
   | "del" :: rest => do some (.del (← nat? rest "s") (← nat? rest "n"))
@@ -103,7 +103,11 @@ def fmtFtsOut : Fts.Out → String
   | .ok => "ok"
   | .skip => "skip"
   | .hits rows => trimRight s!"hits {fmtNats rows}"
-  | .all res => trimRight s!"all {joinWith ";" (res.map fun x => s!"{x.1}:{x.2.1}:{fmtNats x.2.2}")}"
+  | .failed => "err:sql"
+  | .all res => trimRight s!"all {joinWith ";" (res.map fun x =>
+      match x.2.2 with
+      | some rows => s!"{x.1}:{x.2.1}:{fmtNats rows}"
+      | none => s!"{x.1}:{x.2.1}:err:sql")}"
   | .nhits res => trimRight s!"nhits {joinWith ";" (res.map fun x => s!"{x.1}:{fmtNats x.2}")}"
   | .nall res => trimRight s!"nall {joinWith ";" (res.map fun x =>
       s!"{x.1}={joinWith "/" (x.2.map fun y => s!"{y.1}:{fmtNats y.2}")}")}"
@@ -292,7 +296,8 @@ def stepLine (ds : Option DState) (line : String) : Option DState × String :=
       { deleteLeavesIndex := Fts.Defects.asImplemented.deleteLeavesIndex && !fixed.contains "delete",
         ingestUnindexed := Fts.Defects.asImplemented.ingestUnindexed && !fixed.contains "ingest",
         toggleIgnored := Fts.Defects.asImplemented.toggleIgnored && !fixed.contains "toggle",
-        toggleNoReindex := Fts.Defects.asImplemented.toggleNoReindex }
+        toggleNoReindex := Fts.Defects.asImplemented.toggleNoReindex,
+        deleteUnguarded := Fts.Defects.asImplemented.deleteUnguarded && !fixed.contains "guard" }
     match nat? rest "id", kv? rest "eng" with
     | some i, some "ev" => (some (.ev { nsites := n, st := init dEv n }), s!"case {i}")
     | some i, some "fts" => (some (.fts (Fts.init dFts n)), s!"case {i}")
